@@ -286,7 +286,6 @@ pub fn run_c11(ctx: &mut Ctx, idx: u64) {
         let mut msgs: Vec<String> = Vec::new();
         msgs.extend(sr.closure.iter().map(|s| format!("memory safety: {s}")));
         msgs.extend(sr.ranking.iter().map(|s| format!("termination: {s}")));
-        msgs.extend(sr.shape.iter().map(|s| format!("state set: {s}")));
         msgs.extend(sr.table.iter().map(|s| format!("transition table: {s}")));
         if p.num_states() != ns {
             msgs.push(format!("num_states() = {} with this setting, {} with the default", p.num_states(), ns));
